@@ -113,11 +113,16 @@ def case_id(line):
 # result lines
 # ----------------------------------------------------------------------------------------------
 class Res:
-    __slots__ = ("kind", "val", "errs", "raw")
+    __slots__ = ("kind", "val", "errs", "raw", "pulled")
     def __init__(self, raw):
         self.raw = raw
         self.val = None
         self.errs = []
+        self.pulled = None
+        m = re.search(r" P(\d+|!)$", raw)
+        if m:                       # stream kinds: items pulled from the underlying iterator
+            self.pulled = m.group(1)
+            raw = raw[:m.start()]
         if raw.startswith("OK "):
             self.kind = "OK"
             i = raw.rindex(" E[")
